@@ -152,6 +152,47 @@ static std::string handle(const std::string& cmd, const std::string& args) {
         }
     return "";
   }
+
+  if (cmd == "o_pred") {
+    // absence / centricity / epsilon against their definitions over the full operation list
+    long long row = to_ll(w.at(0)); int N = (int) to_ll(w.at(1));
+    const SpaceGroup& sg = spacegroup_tables::main[row];
+    GroupOps g = sg.operations();
+    std::vector<Op> all;
+    for (Op op : g) all.push_back(op);
+    ReciprocalAsu asu(&sg), asut(&sg, true);
+    for (int h = -N; h <= N; ++h)
+      for (int k = -N; k <= N; ++k)
+        for (int l = -N; l <= N; ++l) {
+          Op::Miller m = {{h, k, l}};
+          bool absent = false, centric = false;
+          int eps = 0;
+          for (const Op& op : all) {
+            Op::Miller r = op.apply_to_hkl_without_division(m);
+            if (r[0] == 24 * h && r[1] == 24 * k && r[2] == 24 * l) {
+              ++eps;
+              if ((h * op.tran[0] + k * op.tran[1] + l * op.tran[2]) % 24 != 0) absent = true;
+            }
+            if (r[0] == -24 * h && r[1] == -24 * k && r[2] == -24 * l) centric = true;
+          }
+          std::string at = " at " + std::to_string(h) + " " + std::to_string(k) + " " + std::to_string(l);
+          if (g.is_systematically_absent(m) != absent) return "bad absent" + at;
+          if (g.is_reflection_centric(m) != centric) return "bad centric" + at;
+          if (g.epsilon_factor(m) != eps) return "bad epsilon" + at;
+          // to_asu returns a member related by the reported operation, inside the ASU
+          for (int tnt = 0; tnt < 2; ++tnt) {
+            const ReciprocalAsu& a = tnt ? asut : asu;
+            auto r = a.to_asu(m, g);
+            if (!a.is_in(r.first)) return "bad to_asu result outside ASU" + at;
+            Op::Miller chk = g.sym_ops.at((r.second - 1) / 2).apply_to_hkl(m);
+            if (r.second % 2 == 0) chk = {{-chk[0], -chk[1], -chk[2]}};
+            if (chk != r.first) return "bad to_asu isym does not relate" + at;
+            auto r2 = a.to_asu_sign(m, g);
+            if (r2.first != r.first) return "bad to_asu_sign differs from to_asu" + at;
+          }
+        }
+    return "ok";
+  }
   if (cmd == "o_orbit") {
     // property oracle evaluated on the implementation: number of orbit members (incl. Friedel) inside the ASU
     long long row = to_ll(w.at(0)); bool tnt = to_ll(w.at(1)) != 0; int N = (int) to_ll(w.at(2));
@@ -199,28 +240,40 @@ static std::string handle(const std::string& cmd, const std::string& args) {
     }
     return bad.empty() ? "1" : "0 " + hv::hex_encode(bad);
   }
-  if (cmd == "o_inv") {  // a * a^-1 == identity when the inverse is exactly representable
+  if (cmd == "o_inv") {  // a * a^-1 == identity whenever the true inverse is representable in 1/24 units
     Op a = read_op(w, 0);
-    Op inv = a.inverse();
-    // exactness: det divides every cofactor*DEN^2 and the translation
-    Op chk = a.combine(inv), chk2 = inv.combine(a);
-    bool exact = true;
-    {
-      // verify with 64-bit rationals that inv is the true inverse
-      for (int i = 0; i < 3 && exact; ++i)
-        for (int j = 0; j < 3; ++j) {
-          long long sum = 0;
-          for (int k = 0; k < 3; ++k) sum += (long long) a.rot[i][k] * inv.rot[k][j];
-          if (sum != (i == j ? 24LL * 24 : 0)) exact = false;
-        }
-      for (int i = 0; i < 3 && exact; ++i) {
-        long long sum = (long long) a.tran[i] * 24;
-        for (int k = 0; k < 3; ++k) sum += (long long) a.rot[i][k] * inv.tran[k];
-        if (sum != 0) exact = false;
+    // true inverse by exact rational arithmetic: adj(R)*24^2/det and -(R^-1 t)
+    long long r[3][3], adj[3][3];
+    for (int i = 0; i < 3; ++i) for (int j = 0; j < 3; ++j) r[i][j] = a.rot[i][j];
+    long long det = r[0][0] * (r[1][1] * r[2][2] - r[1][2] * r[2][1]) - r[0][1] * (r[1][0] * r[2][2] - r[1][2] * r[2][0])
+                  + r[0][2] * (r[1][0] * r[2][1] - r[1][1] * r[2][0]);
+    if (det == 0) return "skip";
+    adj[0][0] = r[1][1] * r[2][2] - r[2][1] * r[1][2]; adj[0][1] = r[0][2] * r[2][1] - r[0][1] * r[2][2];
+    adj[0][2] = r[0][1] * r[1][2] - r[0][2] * r[1][1]; adj[1][0] = r[1][2] * r[2][0] - r[1][0] * r[2][2];
+    adj[1][1] = r[0][0] * r[2][2] - r[0][2] * r[2][0]; adj[1][2] = r[1][0] * r[0][2] - r[0][0] * r[1][2];
+    adj[2][0] = r[1][0] * r[2][1] - r[2][0] * r[1][1]; adj[2][1] = r[2][0] * r[0][1] - r[0][0] * r[2][1];
+    adj[2][2] = r[0][0] * r[1][1] - r[1][0] * r[0][1];
+    Op t;  // the true inverse, if representable
+    for (int i = 0; i < 3; ++i)
+      for (int j = 0; j < 3; ++j) {
+        long long num = adj[i][j] * 576;
+        if (num % det != 0) return "skip";
+        t.rot[i][j] = (int) (num / det);
       }
+    for (int i = 0; i < 3; ++i) {
+      long long num = -(t.rot[i][0] * (long long) a.tran[0] + t.rot[i][1] * (long long) a.tran[1] + t.rot[i][2] * (long long) a.tran[2]);
+      if (num % 24 != 0) return "skip";
+      t.tran[i] = (int) (num / 24);
     }
-    if (!exact) return "skip";
-    return (chk == Op::identity() && chk2 == Op::identity()) ? "1" : "0";
+    Op inv = a.inverse();
+    if (inv != t) return "0 inverse-differs-from-exact-inverse";
+    if (a.combine(inv) != Op::identity() || inv.combine(a) != Op::identity()) return "0 product-not-identity";
+    return "1";
+  }
+  if (cmd == "o_spell") {  // two documented spellings of the same operator parse to the same Op
+    Op a = parse_triplet(hv::hex_decode(w.at(0)));
+    Op b = parse_triplet(hv::hex_decode(w.at(1)));
+    return a == b ? "1" : "0 " + a.triplet() + " vs " + b.triplet();
   }
   if (cmd == "o_comp") {  // (a.combine(b))(x) == a(b(x)) on a rational point when the product is representable
     Op a = read_op(w, 0), b = read_op(w, 13);
